@@ -348,12 +348,16 @@ def _after_400(ctx, H):
                                                                                  [rl, b"Content-Length: 5", b"Content-Length: 5"], [rl, b"X: a\x00b"]],
         "a header line is rejected": [conflict + [b"X: y"], [rl, b"Host: a", b"Bad Name: 1", b"X: y"], [rl, b"Content-Length: 3", b"Content-Length: 3", b"X: y"], [rl, b"NoColon", b"X: y"]],
         "the request line is rejected": [[b"GET /\x7f HTTP/1.1", b"Host: a"], [b"GET / HTTP/9.9", b"Host: a"]],
+        "a chunk of the body is malformed": [[rl, b"Host: a", b"Transfer-Encoding: chunked", b"", b"BODY:" + x] for x in (b"g\r\n", b"3;\x00\r\n", b"+3\r\n", b"0x0\r\n", b"3\r\nabcXX", b"2\r\nab\r\n \r\n")],
+        "the trailer section is too long": [[rl, b"Host: a", b"Transfer-Encoding: chunked", b"", b"BODY:3\r\nabc\r\n0\r\n" + (b"X-T: " + b"v" * 1000 + b"\r\n") * 66]],
         "the header block is too large": [[rl] + [b"X-Big: " + b"v" * 9000] * 2],
     }
     for label, blocks in cases.items():
         bad = None
         for lines in blocks:
-            if label.startswith("the last header line"):
+            if any(x.startswith(b"BODY:") for x in lines):
+                pieces = [x + b"\r\n" for x in lines[:-1]] + [lines[-1][5:], b"0\r\n\r\n", b"\r\n", b"GET /next HTTP/1.1\r\nHost: y\r\n\r\n"]
+            elif label.startswith("the last header line"):
                 pieces = [x + b"\r\n" for x in lines] + [b"\r\n", b"abcde", b"fgh"]
             else:
                 follow = [b""] + tail
